@@ -400,11 +400,11 @@ func (a *sideEffectActor) AddNewIDs(c context.Context, activity Activity) error 
 		if oProp := o.GetActivityStreamsObject(); oProp != nil {
 			for iter := oProp.Begin(); iter != oProp.End(); iter = iter.Next() {
 				t := iter.GetType()
-				if t == nil && !iter.IsIRI() {
-					// Neither a value nor an IRI, as a JSON null is:
-					// nothing to identify. A Create that has no object
-					// at all is refused by its side effect.
-					continue
+				if t == nil && objectMissing(oProp) {
+					// Nothing but JSON nulls: nothing to identify. A
+					// Create that has no object at all is refused by its
+					// side effect.
+					break
 				}
 				if t == nil {
 					return fmt.Errorf("cannot add new id for object in Create: object is not embedded as a value literal")
